@@ -414,9 +414,16 @@ def check_declarations(ctx: Ctx, files: List[str]):
                  if any(isinstance(d, ast.FunctionDef) for d in defs)]
         for ci in m.classes.values():
             units += [(f"{ci.name}.{mn}", ci, pick_def(fns)) for mn, fns in ci.methods.items()]
+        exported = None
+        for st in m.tree.body:
+            if isinstance(st, ast.Assign) and any(isinstance(t, ast.Name) and t.id == "__all__" for t in st.targets) \
+                    and isinstance(st.value, (ast.List, ast.Tuple)):
+                exported = {e.value for e in st.value.elts if isinstance(e, ast.Constant) and isinstance(e.value, str)}
         for qn, ci, fn in units:
             leaf = qn.split(".")[-1]
             public = not leaf.startswith("_") or leaf in ("__init__", "__call__")
+            if public and exported is not None and qn.split(".")[0] not in exported:
+                public = False  # the module states its public names: everything else is internal and may be re-parameterised
             if public:
                 for p in list(fn.args.posonlyargs) + list(fn.args.args) + list(fn.args.kwonlyargs):
                     if p.annotation is not None:
